@@ -113,6 +113,8 @@ def _case(draw):
     case["origin"] = draw(st.booleans())
     # scalar fields as they come out of a computation (wind_speed = np.hypot(u, v), a value read from an array ...)
     case["scalar_type"] = draw(st.sampled_from(["python", "python", "np.float64", "np.float32", "np.int64", "0-d array"]))
+    # the timestamps as a list, a tuple or a NumPy array of labels (a pandas index behaves like the last)
+    case["ts_container"] = draw(st.sampled_from(["list", "list", "tuple", "ndarray"]))
     return case
 
 
@@ -185,9 +187,13 @@ def _build_parsed(case):
 def _typed(case):
     """The same forcing with its scalar fields in the drawn NumPy representation (lists stay lists of Python numbers)."""
     t = case.get("scalar_type", "python")
+    import numpy as np
+
+    tc = case.get("ts_container", "list")
+    if tc != "list" and case.get("timestamps") is not None:
+        case = dict(case, timestamps=tuple(case["timestamps"]) if tc == "tuple" else np.array(case["timestamps"]))
     if t == "python":
         return case
-    import numpy as np
 
     conv = {"np.float64": np.float64, "np.float32": np.float32, "np.int64": lambda v: np.int64(int(v)) if abs(v) >= 1 else np.float64(v),
             "0-d array": lambda v: np.asarray(float(v))}[t]
